@@ -175,6 +175,23 @@ def guard_small_input(ctx, prog):
         if a[0] == "call" and a[1].endswith("unwrap_or") and is_path(a[2][0], "self", ("0", "fixed_size")) and is_path(a[2][1], "self", ("0", "input_size")):
             ok = const_value(b) == 4097
             why = "true iff fixed_size.unwrap_or(input_size) < %s" % const_value(b)
+        elif strip(a)[0] == "local" and len(f.defs.get(strip(a)[1], [])) == 2:
+            # `match fixed_size { Some(s) => s, None => input_size }` bound to a local: the same value, spelled out
+            from ..sym import path_conds
+            arms = {}
+            for (blk, _i, kind, x) in f.defs[strip(a)[1]]:
+                v = strip(sy.rvalue(x)) if kind == "rv" else None
+                ds = [c for c in path_conds(f, sy, blk) if strip(c[0])[0] == "discr" and is_path(strip(c[0])[1], "self", ("0", "fixed_size"))]
+                if v is None or len(ds) != 1:
+                    arms = None
+                    break
+                some = (ds[0][1] == "in" and sorted(ds[0][2]) == [1]) or (ds[0][1] == "notin" and sorted(ds[0][2]) == [0])
+                arms["some" if some else "none"] = v
+            if arms and set(arms) == {"some", "none"}:
+                r, names = fpath(arms["some"])
+                ok = is_path(arms["none"], "self", ("0", "input_size")) and is_path(r, "self", ("0", "fixed_size")) is not None and \
+                    names[-2:] == ("<Some>", "0") and const_value(b) == 4097
+                why = "true iff (match fixed_size: Some(s) => s, None => input_size) < %s" % const_value(b)
     ctx.ob(R, "may_warn_about_small_input_size is true iff declared-or-processed size in [0, 4097)", ok, why, f.loc())
 
 
@@ -272,22 +289,29 @@ def reset_fields(f, prog):
         if s["s"] != "assign":
             continue
         lhs = s["lhs"]
-        if lhs["l"] != 1 or "*" not in lhs["p"]:
+        if "*" not in lhs["p"]:
             continue
         if not all(f.dominates(i, r) for r in rets):
             continue   # a re-initialisation that some path to the return skips does not count (e.g. behind an early return)
+        # the stored place, resolved through local aliases of the receiver (`let inner = &mut self.0; inner.x = ..`)
         names = []
         idx = None
-        for el in lhs["p"]:
-            if el == "*":
-                continue
-            if "f" in el:
-                names.append(el["n"])
-            elif "ix" in el:
-                idx = canon(sy.local(el["ix"]))
-                names.append("[%s]" % idx)
+        e = strip(sy.place(lhs))
+        bad = False
+        while True:
+            if e[0] == "field":
+                names.append(e[2])
+                e = strip(e[1])
+            elif e[0] == "index":
+                names.append("[%s]" % canon(e[2]))
+                e = strip(e[1])
+            elif e[0] in ("deref", "ref"):
+                e = strip(e[1])
             else:
-                names.append("?")
+                break
+        if not (e[0] == "param" and e[1] == 1):
+            continue
+        names.reverse()
         out[tuple(names)] = canon(sy.rvalue(s["rv"]))
     for i, t in f.calls():
         if not all(f.dominates(i, r) for r in rets):
